@@ -28,6 +28,8 @@ type SpecEnv struct {
 	fn      *ssa.Function
 	bound   map[string]*Term
 	inOld   bool
+	defDepth int
+	prev    *State // state at the head of the loop (step clauses)
 	quiet   bool // unknown identifiers are not errors (probing)
 }
 
@@ -717,6 +719,25 @@ func (env *SpecEnv) callExpr(n *ast.CallExpr) Val {
 		return n.Args[i]
 	}
 	switch name {
+	case "prev":
+		if env.prev == nil {
+			env.errf("prev(...) outside a loop step clause")
+			return Int(0)
+		}
+		sub := *env
+		sub.s = env.prev
+		sub.prev = nil
+		sub.inOld = false
+		if len(env.prev.frames) > 0 {
+			sub.frame = env.prev.top()
+		}
+		n0 := len(env.prev.pc)
+		v := sub.eval(arg(0))
+		// facts learnt while reading the snapshot (lazy objects) hold now too
+		for _, f := range env.prev.pc[n0:] {
+			env.s.assume(f)
+		}
+		return v
 	case "old":
 		saved := env.inOld
 		env.inOld = true
@@ -917,6 +938,40 @@ func (env *SpecEnv) callExpr(n *ast.CallExpr) Val {
 			vs = append(vs, env.eval(n.Args[i]))
 		}
 		return def(env, vs)
+	}
+	// spec functions defined in the contract file of the package
+	if ps := env.x.P.Specs[env.pkgPath]; ps != nil {
+		if d := ps.Defines[name]; d != nil {
+			if len(n.Args) != len(d.Params) {
+				env.errf("%s takes %d arguments", name, len(d.Params))
+				return Int(0)
+			}
+			if env.defDepth > 8 {
+				env.errf("define %s: recursion is not supported", name)
+				return Int(0)
+			}
+			saved := map[string]Val{}
+			had := map[string]bool{}
+			var vals []Val
+			for i := range n.Args {
+				vals = append(vals, env.eval(n.Args[i]))
+			}
+			for i, pn := range d.Params {
+				saved[pn], had[pn] = env.lets[pn]
+				env.lets[pn] = vals[i]
+			}
+			env.defDepth++
+			v := env.eval(d.Body.Expr)
+			env.defDepth--
+			for _, pn := range d.Params {
+				if had[pn] {
+					env.lets[pn] = saved[pn]
+				} else {
+					delete(env.lets, pn)
+				}
+			}
+			return v
+		}
 	}
 	env.errf("unknown spec function %s in %s", name, exprString(n))
 	return Int(0)
